@@ -27,7 +27,7 @@ TIE = 1e-9
 def plan(tier):
     if tier == "thorough":
         return dict(rounds=640, examples_per_round=100, wall_cap=3300, job_timeout=2400)
-    return dict(rounds=48, examples_per_round=50, wall_cap=420, job_timeout=900)
+    return dict(rounds=64, examples_per_round=60, wall_cap=420, job_timeout=900)
 
 
 # ================================================================== Layer A
